@@ -278,8 +278,8 @@ AS_Variant ==
 
 \* K = max number of consecutive shrinking retries: largest j with thr^j * max_step >= min_step
 RECURSIVE KFrom(_, _, _)
-KFrom(j, a, b) == IF a * ThrN >= b * ThrD THEN KFrom(j + 1, a * ThrN, b * ThrD) ELSE j
-AS_K == KFrom(0, MaxStepN, MinStepN)
+KFrom(j, a, b) == IF Le(MulS(b, ThrD), MulS(a, ThrN)) THEN KFrom(j + 1, MulS(a, ThrN), MulS(b, ThrD)) ELSE j
+AS_K == KFrom(0, FromNat(MaxStepN), FromNat(MinStepN))          \* (BigNat: ThrD^K leaves 32 bits for thresholds near 1)
 CeilDiv(a, b) == (a + b - 1) \div b
 \* iterations <= ceil((L + s0) / m0) * (K + 1) + K        (s0 = (max-min)/2, all over 2 Den)
 AS_Bound == CeilDiv(2 * L + (MaxStepN - MinStepN), M0N) * (AS_K + 1) + AS_K
@@ -290,8 +290,8 @@ TC_StepShrinks ==
     [][(Plan = "tune" /\ pass' = pass + 1) =>
           Le(MulS(Mul(step', M), SfN), MulS(Mul(step, M'), SfD))]_vars
 RECURSIVE PassesFrom(_, _, _)
-PassesFrom(j, a, b) == IF a >= b THEN PassesFrom(j + 1, a * SfD, b * SfN) ELSE j
-TC_Passes == PassesFrom(0, L, MinStepN * (Num - 1))     \* passes whose |step| can still be >= min_step
+PassesFrom(j, a, b) == IF Le(b, a) THEN PassesFrom(j + 1, MulS(a, SfD), MulS(b, SfN)) ELSE j
+TC_Passes == PassesFrom(0, FromNat(L), FromNat(MinStepN * (Num - 1)))     \* passes whose |step| can still be >= min_step
 TC_Bound == Num * TC_Passes
 TC_IterBound == Plan = "tune" => it <= TC_Bound /\ pass <= TC_Passes
 
